@@ -189,3 +189,16 @@ TEXTS["C15"] = {
             "not by the Lean model; strategy expressions outside the linear-comparison fragment are skipped by the validation; float64 vs exact evaluation coincide only for the coefficients used (integers, .5).",
     "technique": "Lean 4 theorems over the executable ballot state machine and decision function + exhaustive differential run of the decision function + trace validation of real vote steps + property monitor",
 }
+
+TEXTS["C16"] = {
+    "text": "Gating, proved on the model of checkIBTP / checkSourceAvailability / checkTargetAvailability for every ledger, service cache and IBTP: a request whose local source service is missing or unavailable is rejected "
+            "(C16_unavailable_source_rejected); the target error (begin-failed) arises exactly when the local destination service is missing, unavailable or blacklists the source (C16_target_error_iff); an accepted request has an available "
+            "source and, if recorded for execution, a destination that exists, is available and does not block the source (C16_accepted_request_is_gated). Life cycles: the state machines of roles (role.go) and of appchains, services, rules "
+            "and nodes (bitxhub-core managers pinned by go.mod) and the available-status sets are regenerated on every run (lean/Bxh/Gen/Lifecycle.lean); kernel-checked table theorems, lifted to the step function for every event string: "
+            "`forbidden` has no exit for appchains, services, roles, nodes (C16_forbidden_absorbing), rules are only cleared to `unavailable` (C16_rule_forbidden_only_cleared), an approved logout ends in forbidden and forbidden / frozen / "
+            "pause / unavailable are never available statuses (C16_logout_approved_is_forbidden), an approved freeze and the cascade `pause` leave the available set (C16_freeze_makes_unavailable). On the real node requests between 6 services "
+            "are interleaved with real governance operations and restarts; a monitor applies the gating rule with the statuses read back before each request, checks every observed status change against the regenerated state machines "
+            "(paths of at most 3 transitions per block), that logged-out objects stay forbidden, and that a frozen / logged-out appchain has no usable service. One defect repaired (fix: a rejected logout of a frozen appchain unpaused its services).",
+    "note": TB + " PARTIAL: the managers' bodies (bitxhub-core) are not modelled: that every status change goes through the state machine is checked on observed traces only; the exec model is compared until the first successful governance operation of a history; nodes, rules and dapps get no traffic.",
+    "technique": "Lean 4 theorems (gating on the interchain model; table theorems over regenerated life-cycle state machines) + differential correspondence + gating / life-cycle / cascade monitor on real governance traffic",
+}
